@@ -42,7 +42,7 @@ CHECKS = {
     ),
     "C05": dict(
         engine="E1-bfs", category="model_checking",
-        text="(H) BFS over every history (depth 3/4; 2/3 for the shared-memory and HDF5 caches) of execute with fresh arrays / execute through caller arrays modified in place / defaults-only / linearize(all|subset) / reopen on harness disciplines with known ground truth and body-run counters (dense, sparse-Jacobian and self-coupled variants), for no cache, SimpleCache, MemoryFullCache (shared or not) and HDF5Cache (nested node), exact and tolerance-based; (S) every history of <= 3 operations over {execute(d), execute(1.07d), linearize(d), linearize(1.07d)} on every shipped discipline the factory builds without arguments, with a full and a simple cache, against an uncached twin running the same history.",
+        text="(H) BFS over every history (depth 3/4; 2/3 for the shared-memory and HDF5 caches) of execute with fresh arrays / execute through caller arrays modified in place / execute through the input arrays found in the returned data, modified in place / defaults-only / a self-coupled output fed back as the next input / linearize(all|subset) / reopen on harness disciplines with known ground truth and body-run counters (dense, sparse-Jacobian incl. empty trailing columns, self-coupled, and self-coupled with a body updating its input in place); every stored entry must hold the outputs and the Jacobian of its own inputs, for no cache, SimpleCache, MemoryFullCache (shared or not) and HDF5Cache (nested node), exact and tolerance-based; (S) every history of <= 3 operations over {execute(d), execute(1.07d), linearize(d), linearize(1.07d)} on every shipped discipline the factory builds without arguments, with a full and a simple cache, against an uncached twin running the same history.",
         note="3 input values (one within the tolerance of another) + defaults, 3 alphabets rotated by VERIF_SEED; canonical state = cache entries + local data + Jacobian keys + differentiated I/O + the caller's reused arrays + run counters; large topology-optimization disciplines are limited to depth 1/2.",
         technique="explicit-state BFS over operation histories of real disciplines and caches, ground-truth / uncached-twin oracle in every state",
     ),
@@ -120,13 +120,13 @@ CHECKS = {
     ),
     "C12": dict(
         engine="E4-crash", category="fault_enumeration",
-        text="For every configuration (MDO DisciplinaryOpt with SLSQP and with COBYLA, MDO MDF with SLSQP, DOE full-factorial / custom samples on one discipline and on an MDF system) x backup at each function call / each iteration x normalized or not x counter kept or reset, an uninterrupted reference run is logged; then the process is really killed (os._exit) inside EVERY discipline execution k = 1..K of the run, the backup file is loaded and compared with the reference snapshot taken at the last backup event before execution k, a fresh process restarts with load=True and is checked for rework, kept entries, optimum and (exact-replay configurations) equality with the uninterrupted history; for small runs every second crash point of the restart is enumerated too (file already containing earlier data).",
-        note="Crash = process death inside a discipline execution (no HDF5 write in progress); torn HDF5 writes are not enumerated; a re-execution at a backed-up point is accepted when it adds an output the backup lacked there; MDF histories are compared within the MDA tolerance.",
+        text="For every configuration (MDO DisciplinaryOpt with SLSQP and with COBYLA, MDO MDF with SLSQP, MDO IDF with an observable, DOE full-factorial / custom samples on one discipline, on an MDF system and with an array-valued objective + scalar constraint) x backup at each function call / each iteration x normalized or not x counter kept or reset, an uninterrupted reference run is logged; then the process is really killed (os._exit) inside EVERY discipline execution k = 1..K of the run, the backup file is loaded and compared with the reference snapshot taken at the last backup event before execution k, a fresh process restarts with load=True and is checked for rework, kept entries, optimum and (exact-replay configurations) equality with the uninterrupted history; for small runs every second crash point of the restart is enumerated too (file already containing earlier data).",
+        note="Crash = process death inside a discipline execution (no HDF5 write in progress); torn HDF5 writes are not enumerated; a re-execution at a backed-up point is accepted when it adds an output the backup lacked there; MDF histories are compared within the MDA tolerance; two registered known findings (counter reset on restart, observable never computed at a loaded partial point).",
         technique="exhaustive crash-point enumeration by real process death (fork per crash point), reference-log oracle",
     ),
     "C13": dict(
         engine="E3-sched+E5-tlc", category="model_checking",
-        text="(A) every schedule - all of them for N<=2 tasks on one worker, deviation-bounded otherwise - of the real thread back-end of CallableParallelExecution under a cooperative scheduler that owns every queue/thread/lock operation, for task counts 0-3(4), worker counts 1-3, all failing subsets and re-raise settings, with the positional / exactly-once / confinement oracle; (M) TLC enumerates the complete state graph of models/WorkerPool.tla per configuration, every terminal behaviour is replayed on the real thread back-end by guided scheduling and every completion order is forced on the real process back-end through gates; every trace the code produces must be a model behaviour and for the completely explored configurations the two trace sets must be equal; (B) MDOParallelChain, DiscParallelExecution/Linearization with failing disciplines, two disciplines sharing a MemoryFullCache (virtual lock) under all schedules with <= d deviations, parallel finite differences and parallel DOE under every forced completion order, against their sequential twins.",
+        text="(A) every schedule - all of them for N<=2 tasks on one worker, deviation-bounded otherwise - of the real thread back-end of CallableParallelExecution under a cooperative scheduler that owns every queue/thread/lock operation, for task counts 0-3(4), worker counts 1-3, all failing subsets and re-raise settings, with the positional / exactly-once / confinement oracle; (M) TLC enumerates the complete state graph of models/WorkerPool.tla per configuration, every terminal behaviour is replayed on the real thread back-end by guided scheduling and every completion order is forced on the real process back-end through gates; every trace the code produces must be a model behaviour and for the completely explored configurations the two trace sets must be equal; (B) under all schedules with <= d deviations: MDOParallelChain vs MDOChain (data and Jacobians), MDOParallelChain(use_deep_copy=True) with a discipline modifying its own copy of the inputs in place, DiscParallelExecution / DiscParallelLinearization with failing disciplines (positional slots), two disciplines sharing a MemoryFullCache under parallel execution and under parallel linearization (virtual re-entrant lock = scheduling points; every entry must hold the outputs and the Jacobian of its own inputs); under every forced completion order of the process back-end: parallel finite differences vs serial, parallel DOE vs sequential DOE (database, and what the user callbacks receive, with and without eval_jac, with failing samples).",
         note="Scheduling points are queue, thread and lock operations (plain attribute accesses between them are not interleaved); the process back-end is covered through forced completion orders, not OS-level interleavings; deviation bounds and TLC state counts are reported in the evidence.",
         technique="stateless schedule exploration of the real code under a controlled scheduler + TLC explicit-state model checking with every model behaviour replayed on the implementation",
     ),
